@@ -31,6 +31,9 @@ def keys_of(variant):
     return v["contracts"] + sorted(v["chains"]) + ["s:" + c for c in v["contracts"]]
 
 
+_OBJECTS = {}
+
+
 def _world(variant="base"):
     from . import impl  # noqa: F401
     from tradingenv.contracts import ETF, ES, FutureChain, AbstractContract
@@ -41,12 +44,18 @@ def _world(variant="base"):
     # model time -> real time: 0,1 before the first last-trading instant, 2 one second before, 3 exactly at it ...
     tmap = {0: datetime(2019, 1, 2), 1: datetime(2019, 2, 1), 2: l1 - sec, 3: l1, 4: l1 + sec, 5: l2 - sec, 6: l2,
             7: l2 + sec, 8: l3}
-    if variant == "base":
-        cs = {"A": ETF("A"), "B": ETF("B"), "F1": f1, "F2": f2}
-        chain = {"CH": FutureChain(contracts=[f2, f1])}
-    else:
-        cs = {"A": ETF("A"), "F1": f1, "F2": f2, "F3": f3}
-        chain = {"CH": FutureChain(contracts=[f2, f3, f1]), "CH1": FutureChain(contracts=[f3, f1, f2], month=1)}
+    # the contract and chain OBJECTS are created once per process and serve every replayed behaviour / recorded trace, each on
+    # a fresh Exchange with the clock back at the start - what a second episode of an environment does: a contract is a key,
+    # whatever it was resolved to in an earlier life of the process
+    if variant not in _OBJECTS:
+        if variant == "base":
+            cs = {"A": ETF("A"), "B": ETF("B"), "F1": f1, "F2": f2}
+            chain = {"CH": FutureChain(contracts=[f2, f1])}
+        else:
+            cs = {"A": ETF("A"), "F1": f1, "F2": f2, "F3": f3}
+            chain = {"CH": FutureChain(contracts=[f2, f3, f1]), "CH1": FutureChain(contracts=[f3, f1, f2], month=1)}
+        _OBJECTS[variant] = (cs, chain)
+    cs, chain = _OBJECTS[variant]
     return Exchange(), cs, chain, tmap, AbstractContract
 
 
